@@ -7,7 +7,7 @@
 using namespace libphysica;
 typedef std::vector<std::vector<double>> Rows;
 
-static const int NPAT = 9;
+static const int NPAT = 10;
 static double entry(int pat, int i, int j, int salt)
 {
 	static const double half[] = {0, 0.5, -0.5, 1, -1, 1.5, -1.5, 2, -2, 2.5, -2.5, 3, -3};
@@ -22,6 +22,8 @@ static double entry(int pat, int i, int j, int salt)
 		// the whole operand at a tiny / huge scale (a power of two: every sum and product stays exact)
 		case 7: return std::ldexp(half[(7 * i + 11 * j + 3 * salt + (i > j ? 5 : 0)) % 13], -80);
 		case 8: return std::ldexp(half[(i * i + 2 * j + salt * 7 + 1) % 13], 80);
+		// entries that are not representable in single precision (half-integer + 2^-30); sums stay exact, and so do products with the other patterns
+		case 9: return half[(5 * i + 3 * j + 2 * salt) % 13] + std::ldexp(1.0, -30);
 		default:
 		{
 			static const double mixed[] = {1024.0, 1.0 / 1024, -1.0, 0.0, 3.0, -1024.0, -1.0 / 1024};
@@ -53,6 +55,21 @@ static bool eqv(const Vector& v, const std::vector<double>& r)
 	return true;
 }
 
+// entries through operator[] and through the row / column accessors (a result object is a matrix like any other)
+static bool eq_all_accessors(const Matrix& M, const Rows& R)
+{
+	if(!eq(M, R)) return false;
+	for(size_t i = 0; i < R.size(); i++)
+		if(!eqv(M.Return_Row(i), R[i])) return false;
+	for(size_t j = 0; R.size() && j < R[0].size(); j++)
+	{
+		std::vector<double> c(R.size());
+		for(size_t i = 0; i < R.size(); i++) c[i] = R[i][j];
+		if(!eqv(M.Return_Column(j), c)) return false;
+	}
+	return true;
+}
+
 static long long g_checks = 0;
 static void fail(const std::string& what, const std::string& cfg, const std::string& cls) { mc::violation("algebra", "algebra|" + cfg + "|" + what + "|" + cls, what + " violates " + cls + " for " + cfg, cfg + " op=" + what); }
 #define CHECK(cond, what, cls) do { g_checks++; if(!(cond)) fail(what, cfg, cls); } while(0)
@@ -69,6 +86,10 @@ static void triple_body(int m, int n, int k, int pa, int pb)
 	std::string cfg = "m=" + std::to_string(m) + ",n=" + std::to_string(n) + ",k=" + std::to_string(k) + ",patA=" + std::to_string(pa) + ",patB=" + std::to_string(pb);
 	// A and C are added and subtracted: they share a scale (patterns 7 and 8 live at 2^-80 and 2^80); products are exact at any pair of scales
 	auto scale_class = [](int p) { return p == 7 ? -1 : p == 8 ? 1 : 0; };
+	// (pattern 9 times pattern 9 would need 60 bits per product: its partner in a product is pattern 0 instead)
+	if(pa == 9 && pb == 9) pb = 0;
+	if(pa == 9 && (pb == 7 || pb == 8)) pb = 1;
+	if(pb == 9 && (pa == 7 || pa == 8)) pa = 1;
 	Rows a = make(m, n, pa, 0), b = make(n, k, pb, 1), c = make(m, n, scale_class(pb) == scale_class(pa) ? pb : pa, 2);
 	Matrix A(a), B(b), C(c);
 	// element-wise sums and differences, all spellings
@@ -92,7 +113,7 @@ static void triple_body(int m, int n, int k, int pa, int pb)
 			p[i][j] = (double)acc;
 		}
 	Matrix P = A * B;
-	CHECK(eq(P, p), "operator*(Matrix)", "product_entries");
+	CHECK(eq_all_accessors(P, p), "operator*(Matrix)", "product_entries");
 	CHECK(eq(A.Product(B), p), "Product(Matrix)", "product_entries");
 	CHECK((P.Transpose() == B.Transpose() * A.Transpose()), "Transpose", "transpose_of_product");
 	CHECK((A * Identity_Matrix(n) == A) && (Identity_Matrix(m) * A == A), "Identity_Matrix", "identity_is_neutral");
@@ -185,7 +206,7 @@ static void triple_body(int m, int n, int k, int pa, int pb)
 			T.Delete_Row(i);
 			Rows r = a;
 			r.erase(r.begin() + i);
-			CHECK(eq(T, r), "Delete_Row", "definition");
+			CHECK(eq_all_accessors(T, r), "Delete_Row", "definition");
 		}
 	}
 	for(int j = 0; j < n; j++)
@@ -199,7 +220,7 @@ static void triple_body(int m, int n, int k, int pa, int pb)
 			T.Delete_Column(j);
 			Rows r = a;
 			for(auto& row : r) row.erase(row.begin() + j);
-			CHECK(eq(T, r), "Delete_Column", "definition");
+			CHECK(eq_all_accessors(T, r), "Delete_Column", "definition");
 		}
 	}
 	if(m > 1 && n > 1)
@@ -209,7 +230,7 @@ static void triple_body(int m, int n, int k, int pa, int pb)
 				Rows r = a;
 				r.erase(r.begin() + i);
 				for(auto& row : r) row.erase(row.begin() + j);
-				CHECK(eq(A.Sub_Matrix(i, j), r), "Sub_Matrix", "definition");
+				CHECK(eq_all_accessors(A.Sub_Matrix(i, j), r), "Sub_Matrix", "definition");
 			}
 }
 
@@ -314,6 +335,13 @@ static void predicates(int n, int pat)
 			t[i][j] += bump;
 			CHECK(Matrix(t).Diagonal() == (i == j), "Diagonal", "single_entry_perturbation");
 		}
+	// Norm with an infinite entry is +infinity (matrix and vector alike)
+	{
+		Rows t = g;
+		t[n - 1][0] = (pat % 2) ? INFINITY : -INFINITY;
+		std::vector<double> tv(t[n - 1]);
+		CHECK(Matrix(t).Norm() == INFINITY && Vector(tv).Norm() == INFINITY, "Norm", "infinite_entry_gives_infinite_norm");
+	}
 	for(int k = 1; k <= 3; k++)
 		if(k != n)
 		{
@@ -432,6 +460,8 @@ static std::string observe(const Matrix& M)
 {
 	std::string o = std::to_string(M.Rows()) + "x" + std::to_string(M.Columns()) + ";norm=" + mc::hexd(M.Norm()) + ";sym=" + std::to_string(M.Symmetric()) + std::to_string(M.Antisymmetric()) + std::to_string(M.Diagonal()) + std::to_string(M.Square());
 	if(M.Square() && M.Rows() > 0) o += ";trace=" + mc::hexd(M.Trace()) + ";det=" + mc::hexd(M.Determinant()) + ";invertible=" + std::to_string(M.Invertible());
+	for(unsigned i = 0; i < M.Rows(); i++) { Vector r = M.Return_Row(i); o += ";row" + std::to_string(i) + "[" + std::to_string(r.Size()) + "]="; for(unsigned k = 0; k < r.Size(); k++) o += mc::hexd(r[k]) + ","; }
+	for(unsigned j = 0; j < M.Columns(); j++) { Vector c = M.Return_Column(j); o += ";col" + std::to_string(j) + "[" + std::to_string(c.Size()) + "]="; for(unsigned k = 0; k < c.Size(); k++) o += mc::hexd(c[k]) + ","; }
 	Matrix T = M.Transpose();
 	o += ";T=";
 	for(unsigned i = 0; i < T.Rows(); i++)
